@@ -392,3 +392,208 @@ def _keys_of(d):
 def _dict_at_loop3(s):
     k = z3.Const('k', z3.StringSort())
     return s.cur.dirdict == z3.Lambda([k], z3.If(z3.Select(s.handed3, k), OptEnt.none, z3.Select(s.D0, k)))
+
+
+# --------------------------------------------------------------------------
+# assert_directory_verifies._walk_directory: the pre-processing generator of the verification walk (C01, C07, C16)
+#
+# A-oswalk: `it` is what os.walk(top, topdown=True, followlinks=True) produces -- one item per directory, the names of
+# one listing are pairwise distinct -- and os.walk descends exactly into the names left in an item's dirnames list.
+
+WalkItem = TupleT(Str, ListT(Str), ListT(Str))
+DirId = TupleT(Int, Int)
+EntMap = DictT(Str, PathEntry)
+OptEntMap = opt_sort(EntMap.sort())
+EMPTY_ENTMAP = z3.K(z3.StringSort(), OptEnt.none)
+StrSeq = z3.SeqSort(z3.StringSort())
+OptInt_ = opt_sort(z3.IntSort())
+
+
+def hidden(x):
+    return z3.PrefixOf(STR('.'), x)
+
+
+def norm_rel(path, start):
+    r = z3.Function('py_relpath', z3.StringSort(), z3.StringSort(), z3.StringSort())(path, start)
+    return z3.If(r == STR('.'), STR(''), r)
+
+
+def item_dirpath(seq, j):
+    return WalkItem.sort().accessor(0, 0)(seq[j])
+
+
+rels_set = S.Fold('walk_rels', SetStr, init=lambda env, root: EMPTYSET,
+                  step=lambda env, acc, el, idx, root: z3.Store(
+                      acc, norm_rel(WalkItem.sort().accessor(0, 0)(el), root), z3.BoolVal(True)))
+
+
+def has(seq, x):
+    return z3.Contains(seq, z3.Unit(x))
+
+
+def tag_of(s, ref):
+    return s.obj(ref).tag
+
+
+def as_map(x):
+    """view of a dict local: an untyped empty literal has no term yet"""
+    return EMPTY_ENTMAP if x is None else x
+
+
+def as_seq(x):
+    """view of a list local: a literal list is a python list of terms"""
+    if isinstance(x, (list, tuple)):
+        t = z3.Empty(StrSeq)
+        for e in x:
+            t = z3.Concat(t, z3.Unit(e))
+        return t
+    return x
+
+
+def _subset(a, b):
+    return _union(a, b) == b
+
+
+def _has_entry(IN, d):
+    return z3.Not(OptEnt.is_none(z3.Select(IN, d)))
+
+
+skip_set = S.Fold('walk_skip', SetStr, init=lambda env, IN: EMPTYSET,
+                  step=lambda env, acc, d, idx, IN: z3.If(z3.Or(hidden(d), _has_entry(IN, d)),
+                                                          z3.Store(acc, d, z3.BoolVal(True)), acc))
+cons_set = S.Fold('walk_consumed', SetStr, init=lambda env, IN: EMPTYSET,
+                  step=lambda env, acc, d, idx, IN: z3.If(
+                      z3.And(z3.Not(hidden(d)), _has_entry(IN, d),
+                             env.obj(OptEnt.val(z3.Select(IN, d))).tag == STR('IGNORE')),
+                      z3.Store(acc, d, z3.BoolVal(True)), acc),
+                  heap_fields=('__class__',))
+
+
+def minus_keys(IN, gone):
+    k = z3.Const('k!m', z3.StringSort())
+    return z3.Lambda([k], z3.If(z3.Select(gone, k), OptEnt.none, z3.Select(IN, k)))
+
+
+def set_minus(a, b):
+    k = z3.Const('k!s', z3.StringSort())
+    return z3.Lambda([k], z3.And(z3.Select(a, k), z3.Not(z3.Select(b, k))))
+
+
+@contract('gemato/recursiveloader.py', 'ManifestRecursiveLoader.assert_directory_verifies._walk_directory',
+          props=['C16', 'C01', 'C07', 'C18'])
+def _(c):
+    c.params(it=SeqT(WalkItem))
+    c.free(self=RL, entry_dict=DictT(Str, EntMap))
+    c.returns(Any)
+    c.only_raises('ManifestCrossDevice', 'ManifestSymlinkLoop', 'OSError')
+    c.note('A-oswalk: the names of one directory listing are pairwise distinct (assume_each of loop 1)')
+
+    def setup(it, fr, bound):
+        ed = it.entry_args['entry_dict']
+        it.entry_args['ED0'] = VMap(ed.content.t, Str, EntMap)
+    c.setup = setup
+
+    k = z3.Const('k!w', z3.StringSort())
+
+    # ---- outer loop: one walk item after the other
+    def ed_minus_visited(s):
+        vis = rels_set(s, s.seq, s.i, s.self.root_directory)
+        return s.entry_dict == z3.Lambda([k], z3.If(z3.Select(vis, k), OptEntMap.none, z3.Select(s.ED0, k)))
+
+    def ghost_update1(s):
+        ctx = s._it.ctx
+        return {'ny': s.ny + getattr(ctx, 'yield_count', 0)}
+    c.loop(1, header='for (dirpath, dirnames, filenames) in it', vars={'directory_ids': DictT(Str, ListT(DirId))},
+           ghosts={'ny': Int}, ghost_init=lambda s: {'ny': z3.IntVal(0)}, ghost_update=ghost_update1,
+           inv=[('one-yield-per-directory', lambda s: s.ny == s.i),
+                ('entry-dict-loses-exactly-the-visited-directories', ed_minus_visited)],
+           assume_each=lambda s: S.distinct(s, as_seq(s.cur.dirnames)))
+
+    # ---- loop 2: which names of the listing are not descended into; IGNORE entries naming a directory are consumed
+    def IN_(s):
+        return as_map(s.before(2).dirdict)
+
+    c.loop(2, header='for d in dirnames', vars={'skip_dirs': ListT(Str), 'dirdict': EntMap, 'de': None},
+           inv=[('skipped-are-exactly-the-hidden-or-listed-names-so-far',
+                 lambda s: S.elems(s, as_seq(s.cur.skip_dirs)) == skip_set(s, s.seq, s.i, IN_(s))),
+                ('entries-kept-except-consumed-ignores',
+                 lambda s: as_map(s.cur.dirdict) == minus_keys(IN_(s), cons_set(s, s.seq, s.i, IN_(s)))),
+                ('consumed-names-are-skipped', lambda s: _subset(cons_set(s, s.seq, s.i, IN_(s)), skip_set(s, s.seq, s.i, IN_(s)))),
+                ('skip-list-has-no-duplicates', lambda s: S.distinct(s, as_seq(s.cur.skip_dirs))),
+                ('skipped-names-come-from-the-listing',
+                 lambda s: _subset(skip_set(s, s.seq, s.i, IN_(s)), S.prefix_set(s, s.seq, s.i)))],
+           assume_each=lambda s: S.distinct_at(s, s.seq, s.i))
+
+    # ---- loop 3: prune the listing
+    def DN0_(s):
+        return as_seq(s.before(3).dirnames)
+
+    c.loop(3, header='for d in skip_dirs',
+           inv=[('listing-minus-the-names-removed-so-far',
+                 lambda s: S.elems(s, as_seq(s.cur.dirnames)) == set_minus(S.elems(s, DN0_(s)), S.prefix_set(s, s.seq, s.i))),
+                ('listing-stays-duplicate-free', lambda s: S.distinct(s, as_seq(s.cur.dirnames)))],
+           assume_each=lambda s: z3.And(S.distinct_at(s, s.seq, s.i), S.member_at(s, s.seq, s.i)))
+
+    # ---- what is handed to the verifier for each directory
+    def y_device(s, v):
+        md = s.self.manifest_device
+        return z3.Or(OptInt_.is_none(md), FS.fs_dev(v[0]) == OptInt_.val(md))
+    c.yield_ensures('directory-is-on-the-manifest-device', y_device)
+    c.yield_ensures('relative-path-of-the-directory', lambda s, v: v[1] == norm_rel(v[0], s.self.root_directory))
+
+    def y_dirnames(s, v):
+        DN = as_seq(s.before(2).dirnames)
+        n = z3.Length(DN)
+        return S.elems(s, as_seq(v[2])) == set_minus(S.elems(s, DN), skip_set(s, DN, n, IN_(s)))
+    c.yield_ensures('descends-exactly-into-visible-directories-without-entry', y_dirnames)
+
+    def y_dirdict(s, v):
+        DN = as_seq(s.before(2).dirnames)
+        n = z3.Length(DN)
+        return as_map(v[4]) == minus_keys(IN_(s), cons_set(s, DN, n, IN_(s)))
+    c.yield_ensures('hands-over-the-entries-of-the-directory-minus-ignores-naming-a-subdirectory', y_dirdict)
+
+    c.yield_ensures('file-names-unchanged', lambda s, v: as_seq(v[3]) == as_seq(s.cur.filenames))
+
+    # ---- loop detection bookkeeping (C16): an id is compared with the ids recorded for the parent directory, and a
+    # directory the walk will descend into records those ids followed by its own
+    IdSeq = z3.SeqSort(DirId.sort())
+    OptIdSeq = opt_sort(IdSeq)
+    mk_id = DirId.sort().constructor(0)
+
+    def ids_of(D, p):
+        cell = z3.Select(D, p)
+        return z3.If(OptIdSeq.is_none(cell), z3.Empty(IdSeq), OptIdSeq.val(cell))
+
+    def as_idmap(x):
+        return z3.K(z3.StringSort(), OptIdSeq.none) if x is None else x
+
+    def y_ids(s, v):
+        Dpre = as_idmap(s.before(2).directory_ids)
+        Dpost = as_idmap(s.cur.directory_ids)
+        me = mk_id(FS.fs_dev(v[0]), FS.fs_ino(v[0]))
+        above = ids_of(Dpre, s.cur.parent_dir)
+        descends = z3.Length(as_seq(v[2])) > 0
+        return z3.And(z3.Not(z3.Contains(above, z3.Unit(me))),
+                      Dpost == z3.If(descends, z3.Store(Dpre, v[0], OptIdSeq.some(z3.Concat(above, z3.Unit(me)))), Dpre))
+    c.yield_ensures('not-among-the-ids-above-and-recorded-below-them-when-descending', y_ids)
+
+    def x_loop(s):
+        D = as_idmap(s.cur.directory_ids)
+        me = mk_id(FS.fs_dev(s.cur.dirpath), FS.fs_ino(s.cur.dirpath))
+        return z3.Contains(ids_of(D, s.cur.parent_dir), z3.Unit(me))
+    c.exc_ensures('loop-error-only-for-an-id-recorded-above', 'ManifestSymlinkLoop', x_loop)
+
+    def x_dev(s):
+        md = s.self.manifest_device
+        return z3.And(z3.Not(OptInt_.is_none(md)), FS.fs_dev(s.cur.dirpath) != OptInt_.val(md))
+    c.exc_ensures('cross-device-error-only-for-a-directory-on-another-device', 'ManifestCrossDevice', x_dev)
+
+    def y_in(s, v):
+        """what the directory's dict started from: the entry_dict slot of this directory (empty when there is none),
+        of the dict as it was at function entry minus the directories visited before"""
+        vis = rels_set(s, s.seq1, s.i1, s.self.root_directory)
+        slot = z3.Select(s.ED0, v[1])
+        expected = z3.If(z3.Or(z3.Select(vis, v[1]), OptEntMap.is_none(slot)), EMPTY_ENTMAP, OptEntMap.val(slot))
+        return IN_(s) == expected
+    c.yield_ensures('starts-from-the-entries-recorded-for-this-directory', y_in)
